@@ -1020,6 +1020,8 @@ struct FsState
     static constexpr int MAXFD = 1024;
     char *fdpath[MAXFD] = { nullptr };
     bool fault_fired = false;
+    std::string sticky_dest; // absolute path that can no longer be created (whole-operation failure)
+    int sticky_err = 0;
 };
 FsState F;
 
@@ -1035,12 +1037,21 @@ const char *rel_path(const char *path)
     return nullptr;
 }
 
-bool fault_hits(int call, int *err)
+bool fault_hits(int call, int *err, const char *dest = nullptr)
 {
     int ord = F.counts[call]++;
     if (F.cfg.fault.call == call && F.cfg.fault.nth == ord && !F.fault_fired) {
         F.fault_fired = true;
-        *err = F.cfg.fault.err;
+        *err = F.cfg.fault.err & 0xffff;
+        if ((F.cfg.fault.err & FS_ERR_STICKY) && dest) {
+            F.sticky_dest = dest;
+            F.sticky_err = *err;
+        }
+        count(C_FS_ERRNO_INJECTED);
+        return true;
+    }
+    if (dest && !F.sticky_dest.empty() && F.sticky_dest == dest) {
+        *err = F.sticky_err;
         count(C_FS_ERRNO_INJECTED);
         return true;
     }
@@ -1106,6 +1117,7 @@ void fs_arm(const FsConfig &cfg)
     F.rng = Rng(cfg.fault_seed ^ 0xf5f5f5f5ull);
     memset(F.counts, 0, sizeof F.counts);
     F.fault_fired = false;
+    F.sticky_dest.clear();
     F.armed = true;
 }
 void fs_disarm()
@@ -1125,6 +1137,7 @@ void fs_set_fault(const FsFault &f)
 {
     F.cfg.fault = f;
     F.fault_fired = false;
+    F.sticky_dest.clear();
 }
 bool fs_fault_fired()
 {
@@ -1497,7 +1510,7 @@ static int open_common(const char *path, int flags, mode_t mode, bool is64)
         return -1;
     }
     int ord = F.counts[FS_OPEN_CREATE];
-    if (creating && fault_hits(FS_OPEN_CREATE, &err)) {
+    if (creating && fault_hits(FS_OPEN_CREATE, &err, path)) {
         boundary(FS_OPEN_CREATE, "open-create", rel, nullptr, ord, false, nullptr, 0, -1, err);
         errno = err;
         return -1;
@@ -1599,7 +1612,7 @@ int renameat2(int ofd, const char *oldp, int nfd, const char *newp, unsigned int
         return real_renameat2(ofd, oldp, nfd, newp, flags);
     int err = 0, ord = F.counts[FS_RENAMEAT2];
     count(C_FS_RENAME);
-    if (fault_hits(FS_RENAMEAT2, &err)) {
+    if (fault_hits(FS_RENAMEAT2, &err, newp)) {
         boundary(FS_RENAMEAT2, "renameat2", r1, r2, ord, false, nullptr, 0, -1, err);
         errno = err;
         return -1;
@@ -1619,7 +1632,7 @@ int rename(const char *oldp, const char *newp)
         return real_rename(oldp, newp);
     int err = 0, ord = F.counts[FS_RENAME];
     count(C_FS_RENAME);
-    if (fault_hits(FS_RENAME, &err)) {
+    if (fault_hits(FS_RENAME, &err, newp)) {
         boundary(FS_RENAME, "rename", r1, r2, ord, false, nullptr, 0, -1, err);
         errno = err;
         return -1;
@@ -1639,7 +1652,7 @@ int link(const char *oldp, const char *newp)
         return real_link(oldp, newp);
     int err = 0, ord = F.counts[FS_LINK];
     count(C_FS_LINK);
-    if (fault_hits(FS_LINK, &err)) {
+    if (fault_hits(FS_LINK, &err, newp)) {
         boundary(FS_LINK, "link", r1, r2, ord, false, nullptr, 0, -1, err);
         errno = err;
         return -1;
@@ -1659,7 +1672,7 @@ int linkat(int ofd, const char *oldp, int nfd, const char *newp, int flags)
         return real_linkat(ofd, oldp, nfd, newp, flags);
     int err = 0, ord = F.counts[FS_LINK];
     count(C_FS_LINK);
-    if (fault_hits(FS_LINK, &err)) {
+    if (fault_hits(FS_LINK, &err, newp)) {
         boundary(FS_LINK, "linkat", r1, r2, ord, false, nullptr, 0, -1, err);
         errno = err;
         return -1;
